@@ -72,6 +72,9 @@ def gen(tier, rnd):
         case(['T 0', 't 0 r hold', 'D 0', 'I %d' % (2 * T), 'S 56', 'I 100', 'U 56', 'I 100', 'I %d' % T], to, tcp=1)  # application reference holds it
         case(['T 0', 't 0 o', 'N', 'I 50', 'N', 'D 0', 'I 100', 'N', 'I %d' % (2 * T)], to, tcp=1)          # observer entry goes with the connection
         case(['T 0', 'T 1', 'T 2', 't 0 r', 't 1 a', 't 2 o', 'R 1', 'O 2', 'A 3', 'D 1', 'D 2', 'I 100', 'N', 'a 57', 'a 3', 'I %d' % (2 * T), 'D 0', 'I 10'], to, tcp=1)
+        case(['T 0', 't 0 b', 'I 50', 'D 0', 'I 100', 'I %d' % (2 * T)], to, tcp=1)                        # a pending block-wise response when the peer goes
+        case(['T 0', 't 0 b hold', 'D 0', 'I 100', 'U 56', 'I %d' % T, 'F'], to, tcp=1)
+        case(['T 0', 'T 1', 't 0 b', 't 1 b', 't 0 a', 'D 0', 'D 1', 'I 10', 'a 56', 'I %d' % (2 * T)], to, tcp=1)
         tbase = ['T 0', 't 0 a', 'T 1', 't 1 r hold', 'R 1 hold', 'D 0', 'I 200', 'D 1', 'I %d' % (T + 100), 'a 56', 'U 57', 'I 100', 'U 1', 'I %d' % (2 * T)]
         for k in range(1, len(tbase) + 1):
             case(tbase[:k] + ['F'], to, tcp=1)
@@ -87,7 +90,7 @@ def gen(tier, rnd):
                 ops.append('T %d' % k); conn.add(k)
             elif r < 0.40 and k in conn:
                 h = rnd.random() < 0.3 and (56 + k) not in heldp
-                ops.append('t %d %s%s' % (k, rnd.choice('rrao'), ' hold' if h else ''))
+                ops.append('t %d %s%s' % (k, rnd.choice('rraob'), ' hold' if h else ''))
                 if h:
                     heldp.add(56 + k)
             elif r < 0.52 and conn:
